@@ -501,7 +501,8 @@ class SymExec:
                     continue
                 # temp = &mut L ?
                 src = self._mut_target(pl["l"])
-                if src is not None and not self.body["locals"][src]["ty"].startswith("&"):
+                sty = self.body["locals"][src]["ty"] if src is not None else ""
+                if src is not None and (not sty.startswith("&") or sty.startswith("&mut ")):
                     old = self.read_local(p, src)
                     p.env[src] = ("M", eid, old)
         self.write_place(p, t["dest"], val)
